@@ -1,5 +1,115 @@
-"""Checker self-test (mutants / benign variants); filled in later."""
+"""Checker self-test: mutants (must be reported by the named rule) and benign variants (must stay silent).
+
+Variants are source edits applied to an in-memory overlay of /repo's files; nothing is written to disk.
+A variant whose `old` text is no longer present on the current tree is *stale* and skipped (reported, never a failure):
+the self-test validates the checker, it is not a property of the repository.
+"""
+
+from __future__ import annotations
+
+import importlib
+import json
+import os
+import sys
+import time
+from concurrent.futures import ProcessPoolExecutor
+from dataclasses import dataclass
+from pathlib import Path
+
+sys.path.insert(0, str(Path(__file__).resolve().parent.parent))
+
+from sa.srcmodel import REPO, AnalysisError  # noqa: E402
 
 
-def run_for(prop: str) -> int:
+@dataclass
+class Variant:
+    prop: str
+    name: str
+    file: str  # path relative to the repository root
+    old: str
+    new: str
+    expect: str | None  # rule id expected to fire ("R2"), "" = any rule of the property, None = benign (silence expected)
+    also: tuple[tuple[str, str, str], ...] = ()  # further (file, old, new) edits of the same variant
+    every: bool = False  # replace every occurrence of `old` (renames)
+
+
+def _apply(v: Variant) -> dict[str, str] | None:
+    overlay: dict[str, str] = {}
+    for file, old, new in ((v.file, v.old, v.new), *v.also):
+        text = overlay.get(file)
+        if text is None:
+            text = (REPO / file).read_text(encoding="utf8")
+        if text.count(old) < 1 or (text.count(old) != 1 and not v.every):
+            return None
+        overlay[file] = text.replace(old, new)
+    return overlay
+
+
+def run_variant(v: Variant) -> dict:
+    from sa import check
+
+    overlay = _apply(v)
+    if overlay is None:
+        return {"name": v.name, "status": "stale"}
+    try:
+        code, ctx = check.run_property(v.prop, "quick", overlay, emit=False)
+        new = ctx.analysed.get("_new", [])
+        rules = sorted({o.rule for o in new})
+        first = next((f"{o.rule} {o.where} {o.what[:90]}" for o in new), "")
+    except AnalysisError as exc:
+        code, rules, first = 2, [], f"ANALYSIS-ERROR {exc}"
+    except SyntaxError as exc:
+        return {"name": v.name, "status": "broken-variant", "detail": str(exc)}
+    if v.expect is None:
+        ok = code == 0
+    else:
+        ok = code == 1 and (v.expect == "" or v.expect in rules)
+    return {"name": v.name, "status": "ok" if ok else "FAIL", "exit": code, "rules": rules, "expect": v.expect, "first": first}
+
+
+def load_variants(prop: str) -> list[Variant]:
+    try:
+        mod = importlib.import_module(f"sa.variants.{prop}")
+    except ModuleNotFoundError:
+        return []
+    return list(mod.VARIANTS)
+
+
+def run_for(prop: str, *, jobs: int | None = None, verbose: bool = True) -> int:
+    variants = load_variants(prop)
+    if not variants:
+        print(f"[{prop}] self-test: no variants registered")
+        return 0
+    started = time.time()
+    jobs = jobs or min(16, os.cpu_count() or 4, len(variants))
+    with ProcessPoolExecutor(max_workers=jobs) as ex:
+        results = list(ex.map(run_variant, variants))
+    bad = [r for r in results if r["status"] == "FAIL" or r["status"] == "broken-variant"]
+    stale = [r for r in results if r["status"] == "stale"]
+    killed = [r for r in results if r["status"] == "ok" and r.get("expect") is not None]
+    silent = [r for r in results if r["status"] == "ok" and r.get("expect") is None]
+    print(f"[{prop}] self-test: {len(killed)} mutants reported by the expected rule, {len(silent)} benign variants silent, "
+          f"{len(stale)} stale, {len(bad)} FAILED in {time.time() - started:.1f}s")
+    if verbose:
+        for r in results:
+            if r["status"] != "ok":
+                print("   ", json.dumps(r))
+    # append the kill matrix to the evidence file written by the main run
+    ev_path = Path(__file__).resolve().parent.parent / "evidence" / f"{prop}.json"
+    if ev_path.exists():
+        ev = json.loads(ev_path.read_text())
+        ev["coverage"]["selftest"] = {"mutants_killed": len(killed), "benign_silent": len(silent), "stale": len(stale),
+                                      "failed": [r["name"] for r in bad], "matrix": results}
+        ev_path.write_text(json.dumps(ev, indent=1, default=str))
+    if bad:
+        print(f"ANALYSIS-ERROR property={prop}: checker self-test failed ({', '.join(r['name'] for r in bad)})")
+        return 2
     return 0
+
+
+if __name__ == "__main__":
+    props = sys.argv[1:] or [f"C{n:02d}" for n in range(1, 21)]
+    rc = 0
+    for p in props:
+        rc = max(rc, run_for(p))
+    sys.exit(rc)
